@@ -25,7 +25,9 @@ import (
 type Case struct {
 	Cfg    Config `json:"cfg"`
 	Script Script `json:"script"`
-	FullCH bool   `json:"full_chunkings"` // the last scripted turn is streamed in every chunking
+	// Level of the Stream runs: 2 = six uniform patterns + custom checker + every chunking of the last scripted
+	// turn; 1 = six uniform patterns + custom checker; 0 = uniform patterns 0, 3, 4, 5 only.
+	Level int `json:"level"`
 }
 
 func (cs *Case) String() string { return cs.Cfg.String() + "/" + cs.Script.String() }
@@ -183,10 +185,15 @@ func streamRuns(cs *Case, e *Expect) []streamRun {
 	}
 	for j := 0; j < nPatterns; j++ {
 		j := j
+		if cs.Level == 0 && (j == 1 || j == 2) {
+			continue
+		}
 		add(fmt.Sprintf("uniform-pattern-%d", j), false, func(_ int, t Turn) []int { return pattern(j, t) })
 	}
-	add("custom-checker", true, func(_ int, t Turn) []int { return pattern(0, t) })
-	if cs.FullCH && len(s.Turns) > 0 {
+	if cs.Level >= 1 {
+		add("custom-checker", true, func(_ int, t Turn) []int { return pattern(0, t) })
+	}
+	if cs.Level >= 2 && len(s.Turns) > 0 {
 		n := len(s.Turns)
 		last := s.Turns[n-1]
 		for _, v := range allChunkings(last) {
@@ -317,7 +324,10 @@ func canonicalTurn(c Config, t Turn) bool {
 	return true
 }
 
-func configs(n int) []Config {
+// configs lists the configurations run with scripts of n turns (maxTurns = script bound of the tier).
+// Deepest level only: the unknown-tool handler is combined with (no modifier, invokable tools) and
+// (modifier, streamable tools) instead of all four.
+func configs(n, maxTurns int) []Config {
 	var out []Config
 	bools := []bool{false, true}
 	for _, ms := range []int{0, 2, 3, 4} {
@@ -336,6 +346,9 @@ func configs(n int) []Config {
 								if dep && n > 1 {
 									continue
 								}
+								if n == maxTurns && h && mod != st {
+									continue
+								}
 								out = append(out, Config{Tools: ts, RD: rd, Handler: h, MaxStep: ms, Modifier: mod, StreamTools: st, Deprecated: dep})
 							}
 						}
@@ -348,7 +361,7 @@ func configs(n int) []Config {
 }
 
 // scripts calls yield for every script of exactly n turns whose every turn is reached under c.
-func scripts(c Config, n int, alphabet []Turn, yield func(Script) bool) {
+func scripts(c Config, n int, loops bool, alphabet []Turn, yield func(Script) bool) {
 	var rec func(prefix []Turn) bool
 	rec = func(prefix []Turn) bool {
 		k := len(prefix) + 1
@@ -357,7 +370,7 @@ func scripts(c Config, n int, alphabet []Turn, yield func(Script) bool) {
 			if !yield(s) {
 				return false
 			}
-			if n > 0 && continues(c, prefix[n-1], n) {
+			if loops && n > 0 && continues(c, prefix[n-1], n) {
 				s.Loop = true
 				return yield(s)
 			}
@@ -421,12 +434,20 @@ func main() {
 	dry := os.Getenv("C18_DRY") != "" // development aid: count cases and runs without executing them
 	stop := false
 	for n := 0; n <= maxTurns && !stop; n++ {
-		for _, cfg := range configs(n) {
+		for _, cfg := range configs(n, maxTurns) {
 			if stop {
 				break
 			}
-			scripts(cfg, n, alphabet, func(s Script) bool {
-				cs := &Case{Cfg: cfg, Script: s, FullCH: n <= fullCH}
+			level := 1
+			switch {
+			case n == maxTurns:
+				level = 0
+			case cfg.Deprecated:
+			case n < fullCH || (n == fullCH && !cfg.Modifier && !cfg.StreamTools):
+				level = 2
+			}
+			scripts(cfg, n, n < maxTurns, alphabet, func(s Script) bool {
+				cs := &Case{Cfg: cfg, Script: s, Level: level}
 				name := cs.String()
 				if !c.Mine(name) {
 					return true
